@@ -47,7 +47,11 @@ K4 (constant-parameter elimination decision, `mir_constant_param_elimination.rs`
   self-recursive function (self calls in any position), for all arguments and fuel;
 * `cpe_prog_unused_preserves`, `cpe_prog_const_preserves` (K4c, `Model/CpeProg.lean`): the same over a
   program of mutually calling functions — the parameter disappears from `g` and from every call of
-  `g` in every function, and every function of the program keeps its printed lines and result.
+  `g` in every function, and every function of the program keeps its printed lines and result;
+* `cpe_prog_unused_many_preserves`: several unused parameters removed in one sweep (decision taken once on the
+  original program; the shape of the remaining parameters survives each removal);
+* `cpe_anyslot_counterexample`: the own-slot clause of the self-call exemption is necessary (the any-slot variant
+  of seeded faults C01 / C03f classifies a rotated parameter as unused and changes the result).
 -/
 namespace SamVerif.C01
 open SamVerif.EnumLayout
@@ -988,6 +992,107 @@ def hgProg : Prog :=
 example : paramState (hgProg.map CpeProg.fnOf) (CpeProg.fnOf (hgProg[2]!)) 3 3 = .c32 7 := by decide
 example : (hgProg.map (·.name)).Nodup := by decide
 example : hgProg.all (fun fn => callsArityG 2 4 fn.body) = true := by decide
+
+end SamVerif.C01
+
+/-! ## K4 round 6: the own-slot clause is necessary; several parameters at once -/
+namespace SamVerif.C01
+open SamVerif.TailRec SamVerif.CpeSem
+open SamVerif.Opt (Op evalTarget)
+
+
+/-- The variant of the self-call exemption that seeded faults C01 / C03f put in place of
+`selfCallReads`: an argument is skipped as soon as it is *some* parameter, in any slot. -/
+def selfCallReadsAnySlot (params : List Name) (args : List Arg) : List Name :=
+  args.filterMap fun a => match a with
+    | .var x => if params.contains x then none else some x
+    | _ => none
+
+/-- `rot(n, a, b) = if n <= 0 { a } else { rot(n - 1, b, a) }`: `b` is only ever passed on, into `a`'s slot. -/
+def rotBody : CBody :=
+  .bin 10 .le (.var 0) (.lit 0)
+    (.ite (.var 10) (.ret (.var 1))
+      (.bin 11 .sub (.var 0) (.lit 1) (.call 12 [.var 11, .var 2, .var 1] (.ret (.var 12)))))
+
+/-- **The own-slot clause is necessary.** With the any-slot variant `b` is read by nothing (so it
+would be classified `Unused`), the real rule classifies it `Referenced`, and removing it changes
+the result: `rot(1, 5, 7)` is 7, the function without `b` returns 0. -/
+theorem cpe_anyslot_counterexample :
+    selfCallReadsAnySlot [0, 1, 2] [.var 11, .var 2, .var 1] = [11] ∧
+    localState (fnOf 1 [0, 1, 2] rotBody) 2 = .referenced ∧
+    run evalTarget [0, 1, 2] rotBody 3 [1, 5, 7] = some ([], 7) ∧
+    run evalTarget ([0, 1, 2].eraseIdx 2) (dropArg 2 rotBody) 3 ([1, 5, 7].eraseIdx 2) = some ([], 0) := by
+  refine ⟨by decide, by decide, ?_, ?_⟩
+  · simp [run, rotBody, exec, bindParams, upd, Expr.eval, evalTarget, Opt.b2i, Opt.wrap32]
+  · simp [run, rotBody, dropArg, exec, bindParams, upd, Expr.eval, evalTarget, Opt.b2i, Opt.wrap32]
+
+
+end SamVerif.C01
+
+namespace SamVerif.C01
+open SamVerif.TailRec SamVerif.CpeProg
+open SamVerif.Opt (Op)
+
+
+/-- Every index of `is` names a parameter of `gfn` for which the whole program has the
+"cannot be observed" shape (what the decision `Unused` establishes: `okU_of_reads`, `okU_none`). -/
+def AllUnusedShape (prog : Prog) (g : Nat) (gfn : PFn) (is : List Nat) : Prop :=
+  ∀ i ∈ is, ∃ p, gfn.params[i]? = some p ∧
+    ∀ fn ∈ prog, okU g i gfn.params.length (hideOf g p fn) fn.body
+
+/-- **Composition: eliminating several unused parameters.** If the parameters `is` of `g` (listed
+from the highest index down, as `rewrite_sources` removes them in one sweep) all have the
+unused shape *in the original program* — the decision is taken once, before any rewriting — then
+removing all of them keeps the printed lines and the result of every function of the program.
+The proof removes them one at a time and shows that the shape of the remaining ones survives each
+removal (`okU_dropArgs`), i.e. eliminating in sequence is justified by the one-shot decision. -/
+theorem cpe_prog_unused_many_preserves (ev : Op → Int → Int → Option Int) (g : Nat) :
+    ∀ (is : List Nat) (prog : Prog) (gfn : PFn), lookup prog g = some gfn → gfn.params.Nodup →
+      is.Pairwise (· > ·) → AllUnusedShape prog g gfn is →
+      ∀ (h : Nat) (fuel : Nat) (vals : List Int),
+        run ev prog h fuel vals =
+          run ev (dropMany g is prog) h fuel (if h = g then eraseMany is vals else vals) := by
+  intro is
+  induction is with
+  | nil => intro prog gfn _ _ _ _ h fuel vals; simp [dropMany, eraseMany]
+  | cons i rest ih =>
+    intro prog gfn hg hnd hpw hsh h fuel vals
+    obtain ⟨p, hp, hall⟩ := hsh i (List.mem_cons_self ..)
+    have hi : i < gfn.params.length := (List.getElem?_eq_some_iff.mp hp).1
+    have hgm := lookup_mem hg
+    rw [run_dropParam ev prog g i gfn p hg hp hnd hall h fuel vals]
+    -- the program after the first removal
+    let T : PFn → PFn := fun fn =>
+      { fn with params := if fn.name = g then fn.params.eraseIdx i else fn.params,
+                body := dropArgs g i fn.body }
+    have hg' : lookup (dropParam g i prog) g = some (T gfn) := by
+      have := lookup_map prog T (fun _ => rfl) g
+      rw [hg] at this
+      exact this
+    have hpar : (T gfn).params = gfn.params.eraseIdx i := by simp [T, hgm.2]
+    have hnd' : (T gfn).params.Nodup := by
+      rw [hpar]; exact hnd.sublist (List.eraseIdx_sublist ..)
+    have hpw' := (List.pairwise_cons.mp hpw)
+    have hsh' : AllUnusedShape (dropParam g i prog) g (T gfn) rest := by
+      intro j hj
+      have hji : j < i := hpw'.1 j hj
+      obtain ⟨q, hq, hallq⟩ := hsh j (List.mem_cons_of_mem _ hj)
+      refine ⟨q, ?_, ?_⟩
+      · rw [hpar, List.getElem?_eraseIdx]; simp [hji, hq]
+      · intro fn' hfn'
+        obtain ⟨fn, hfn, rfl⟩ := List.mem_map.mp hfn'
+        have hlen : (T gfn).params.length = gfn.params.length - 1 := by
+          rw [hpar, List.length_eraseIdx]; simp [hi]
+        rw [hlen]
+        have := okU_dropArgs g i j gfn.params.length (hideOf g q fn) hji hi fn.body (hallq fn hfn)
+        simpa [T, hideOf] using this
+    have := ih (dropParam g i prog) (T gfn) hg' hnd' hpw'.2 hsh' h fuel (if h = g then vals.eraseIdx i else vals)
+    rw [this]
+    by_cases hh : h = g <;> simp [hh, dropMany, eraseMany]
+
+
+-- non-vacuity: in `hgProg` nothing is unused, so the empty list; and a two-parameter instance
+example : AllUnusedShape hgProg 2 (hgProg[2]!) [] := fun _ h => by cases h
 
 end SamVerif.C01
 
